@@ -41,7 +41,9 @@ def free_network(draw, tier):
     names = [f"{i + 2}-clique" if style == "plain" else f"top/{i}-x" for i in range(T)]
     return {"free": True, "n": n, "names": names, "edges": edges, "jd": jd,
             # vertex ids need not be 0..n-1 in insertion order; annotations may be tuples or lists
-            "labels": draw(st.sampled_from(["id", "id", "perm", "offset", "str"])),
+            # ("edge_named": vertex names are arbitrary hashables -- two vertices are named by the pair of names of an
+            # existing edge, in both orientations, as line-graph / incidence constructions do)
+            "labels": draw(st.sampled_from(["id", "id", "perm", "offset", "str", "edge_named"])),
             "perm": list(draw(st.permutations(list(range(n))))),
             "insert": draw(st.sampled_from(["nodes_first", "by_edges"])),
             "jd_type": draw(st.sampled_from(["tuple", "tuple", "list", "mixed"])),
@@ -97,7 +99,16 @@ def build(case):
         kind = net.get("labels", "id")
         perm = net.get("perm") or list(range(net["n"]))
         lab = {"id": lambda v: v, "perm": lambda v: perm[v], "offset": lambda v: 4 * perm[v] + 3,
-               "str": lambda v: f"v{perm[v]}"}[kind]
+               "str": lambda v: f"v{perm[v]}", "edge_named": lambda v: v}[kind]
+        if kind == "edge_named" and net["edges"]:
+            a, b = net["edges"][0][0], net["edges"][0][1]
+            others = [v for v in range(net["n"]) if v not in (a, b)]
+            ren = {}
+            if others:
+                ren[others[0]] = (a, b)
+            if len(others) > 1:
+                ren[others[1]] = (b, a)
+            lab = lambda v: ren.get(v, v)
         conv = list if net.get("jd_type") == "list" else tuple
         if net.get("jd_type") == "mixed":
             # tuples on some vertices, lists on others (a degree sequence given as lists and topped up by the
